@@ -32,7 +32,7 @@ ANCHORS = [
     "acnportal.acnsim.interface:Interface.is_feasible",
     "acnportal.algorithms.utils:infrastructure_constraints_feasible",
 ]
-REQUIRED = ["rel:rebuild", "rel:stations", "rel:constraints", "rel:sessions", "rel:all", "rel:shift", "sched:scripted",
+REQUIRED = ["cases_whose_event_batch_fails_part_way_and_is_completed_by_hand", "rel:rebuild", "rel:stations", "rel:constraints", "rel:sessions", "rel:all", "rel:shift", "sched:scripted",
             "sched:uncontrolled", "sched:sorted", "sorted_runs_judged", "as_df_accessors_checked", "regime:binding-or-mixed-sign", "regime:hetero-voltage"]
 BUDGET_S = {"quick": 240, "thorough": 3000}
 
@@ -281,6 +281,9 @@ def first_diff_period(base, alt, shift=0):
 def run_case(case, obs):
     d = case["desc"]
     rng = random.Random(case["pseed"])
+    if case["pseed"] % 5 == 1:
+        d = dict(d, bad_batch=True)  # every run of this case is set up through a batch that fails part-way and is repaired by hand
+        obs.ev("cases_whose_event_batch_fails_part_way_and_is_completed_by_hand")
     net = d["network"]
     n, m, k = len(net["stations"]), len(net["constraints"]), len(d["sessions"])
     kind = d["scheduler"]["kind"]
